@@ -132,7 +132,9 @@ func f2Shape(sig string) string {
 	return out
 }
 
-func c13Program(r *explore.Run, p *prog, depth int, tot *c12Totals) { c13ProgramOnly(r, p, depth, tot, nil) }
+func c13Program(r *explore.Run, p *prog, depth int, tot *c12Totals) {
+	c13ProgramOnly(r, p, depth, tot, nil)
+}
 
 // c13ProgramOnly restricts the transitions to the named passes (nil: all twelve).
 func c13ProgramOnly(r *explore.Run, p *prog, depth int, tot *c12Totals, only map[string]bool) {
